@@ -17,7 +17,11 @@ ANCHORS = [("deap/gp.py", ["PrimitiveTree.__str__", "PrimitiveTree.from_string",
                            "PrimitiveSetTyped.addTerminal", "PrimitiveSetTyped.addADF", "compile", "compileADF", "graph",
                            "mutSemantic", "cxSemantic"])]
 LEVEL = "partial"
-RULE = ("every primitive set (untyped with 0/1/2 arguments incl. renamed arguments, named terminals (also as the single node "
+RULE = ("FIRST: histories on one fresh set object and a few tree objects (untyped 2/3 arguments, typed int/float/int; ADF families): str, compile, renameArguments (plain, swap, 3-cycle, "
+        "a name freed in the same call, back-renaming, back to the original names, no-op / unknown keyword; chained), from_string round trip (the re-parsed tree lives on), deepcopy / pickle "
+        "copies, the seven variation operators in place, compileADF after renamings of the ADF sets, earlier callables called again — after every step (dense) or only at the listed "
+        "observations (sparse) compile(tree)(args) vs the direct interpretation of the current nodes (argument = identity of the set's terminal, by position) and str(tree) vs the recursive "
+        "printer under pset.arguments; one `hist` line per tree object and segment vs GpCompile.runSession (observations, final names, values, evalRef). THEN: every primitive set (untyped with 0/1/2 arguments incl. renamed arguments, named terminals (also as the single node "
         "of a zero-argument set), overlapping renamings (swap, 3-cycle, rename onto a freed name), negative constants, anonymous constants equal by == but of different type / sign of zero, "
         "ephemerals; strongly typed int/bool/float with a subclass pair and dyadic float constants; untyped and typed STRING sets with unnamed string constants, named strings and "
         "string ephemerals; a typed int/bool set with bool ephemerals in int slots and a representation-sensitive primitive; a two-level ADF family with 1- and 0-argument main sets, "
@@ -213,6 +217,7 @@ class PS(object):
     def __init__(self, key, pset):
         self.key, self.pset = key, pset
         assert hasattr(pset, "_argterms"), "register_args(pset) must be called when the set is created"
+        _c11.assert_unique_names(pset)          # one declaration per name (gp.py's own requirement; DESIGN "C12 names")
         # the terminals that stand for a NAME (arguments, named terminals): decided from the set's tables, never from
         # Terminal.conv_fct — an unnamed string constant has a str value too, but nothing of its name in the context
         self.sym = set(id(t) for t in pset._argterms)
@@ -960,6 +965,435 @@ EDGE_TEXTS = ["f(a,)", "lambda a,: a", "(a)", "1_0", "00", "007", "0x10", "1j", 
 
 
 # ----------------------------------------------------------------------------------------------
+# HISTORIES: one set object and a few tree objects living through str / compile / renameArguments / variation
+# operators in place / copies / from_string; after every step compile(tree)(args) is compared with the direct
+# interpretation of the tree's CURRENT nodes (arguments by position = identity of the set's argument terminals,
+# under the CURRENT names pset.arguments) and str(tree) with the recursive printer on the current nodes
+# ----------------------------------------------------------------------------------------------
+
+import copy as _copy
+import keyword as _keyword
+import pickle as _pickle
+
+HIST_SETS = ["hu2", "hu3", "ht3"]
+FRESH_NAMES = ["x", "y", "z", "w", "n_1", "val", "a0", "b", "ARG7", "arg0", "X", "Arg1", "p2", "q_", "ARG10", "t"]
+REN_KINDS = ["plain", "swap", "cycle", "freed", "back", "orig", "noop", "plain", "swap", "cycle"]
+HIST_OPS = ["cx", "cxlb", "mutu", "mutn", "mute", "muti", "muts"]
+
+
+def hist_set(key):
+    """a FRESH set object per history (renamings mutate it)"""
+    if key == "hu2":
+        return untyped(key, 2, ASYM + [(f_mul, 2, "mul")], [1, -2], [("three", 3)])
+    if key == "hu3":
+        return untyped(key, 3, ASYM + [(f_max3, 3, "max3")], [0, 3], [("ten", 10)])
+    return typed(key, [int, float, int], int)
+
+
+def hist_printer(nodes, leaf):
+    """the recursive text `name(a1, a2, ...)` of the prefix list; `leaf(n)` = the text of a terminal"""
+    def go(i):
+        n = nodes[i]
+        if isinstance(n, gp.Primitive):
+            parts, j = [], i + 1
+            for _ in range(n.arity):
+                t, j = go(j)
+                parts.append(t)
+            return "%s(%s)" % (n.name, ", ".join(parts)), j
+        return leaf(n), i + 1
+    t, j = go(0)
+    if j != len(nodes):
+        raise Bad("orphan nodes")
+    return t
+
+
+class HTree(object):
+    """a tree object of a history: `pos` = id(node) -> argument position for leaves that are NOT the set's own
+    argument terminals (a pickled copy has private copies of them); `log` = what was observed on this object since
+    its node list last changed (for the model's session), `names0` = the argument names at that moment"""
+
+    def __init__(self, tree, names0, foreign=None):
+        self.tree, self.names0, self.log, self.foreign = tree, list(names0), [], foreign
+
+
+class Hist(object):
+    def __init__(self, ps, rng):
+        self.ps, self.pset, self.rng = ps, ps.pset, rng
+        self.lines, self.expect, self.orc, self.corr = [], [], None, None
+        self.idpos = dict((id(t), i) for i, t in enumerate(self.pset._argterms))
+        self.in_types = list(self.pset.ins)
+        self.tuples = arg_tuples(self.in_types, rng, cap=6)
+        self.old = []                 # (callable, nodes at compile time, positions, text) of earlier compilations
+        self.last = None              # the last effective renaming, for `back`
+        self.renames = 0
+
+    def fail(self, msg):
+        if self.orc is None:
+            self.orc = msg
+
+    # -- the statement's reading of one tree object at this moment
+    def pos_of(self, ht):
+        m = dict(self.idpos)
+        if ht.foreign:
+            m.update(ht.foreign)
+        return m
+
+    def leaf_text(self, ht):
+        pos = self.pos_of(ht)
+
+        def leaf(n):
+            if id(n) in pos:
+                return self.pset.arguments[pos[id(n)]]            # the CURRENT name of that argument
+            if type(type(n)) is gp.MetaEphemeral:
+                return repr(n.value)
+            if isinstance(n.value, str) and (id(n) in self.ps.sym or ht.foreign is not None):
+                return n.name                                      # a named terminal
+            return repr(n.value)
+        return leaf
+
+    def direct(self, nodes, pos, tup, foreign):
+        argmap = dict((i, tup[p]) for i, p in pos.items())
+        return interp(nodes, self.pset.context, argmap, None if foreign else self.ps.sym)
+
+    def observe(self, ht, what="sc", final=False):
+        """str and/or compile of the tree object, against the printer / the direct interpretation"""
+        tree, pset = ht.tree, self.pset
+        where = "after %s" % self.trail
+        if "s" in what:
+            s = str(tree)
+            want = hist_printer(list(tree), self.leaf_text(ht))
+            if s != want:
+                self.fail("str(tree) = %r but the tree's current nodes print %r (arguments %r) %s" % (
+                    s, want, pset.arguments, where))
+            ht.log.append(("s", s))
+        got = None
+        if "c" in what:
+            f, src, how = capture_compile(tree, pset)
+            if how is not None and self.corr is None:
+                self.corr = "CORRESPONDENCE: " + how
+            pos = self.pos_of(ht)
+            got = []
+            for tup in self.tuples:
+                want = self.direct(list(tree), pos, tup, ht.foreign is not None)
+                try:
+                    v = call(f, pset, tup)
+                except Exception as e:  # noqa
+                    v = e
+                    self.fail("compiled %s%r (arguments %r) raises %s: %s but direct evaluation of the prefix tree "
+                              "gives %r %s" % (hist_printer(list(tree), self.leaf_text(ht)), tup, pset.arguments,
+                                               type(e).__name__, e, want, where))
+                got.append(v)
+                if not isinstance(v, Exception) and not same_value(v, want):
+                    self.fail("compiled %s%r (arguments %r) = %r but direct evaluation of the prefix tree gives %r %s" % (
+                        hist_printer(list(tree), self.leaf_text(ht)), tup, pset.arguments, v, want, where))
+            if src is not None and not final:
+                ht.log.append(("c", src))
+            if not final:
+                self.old.append((f, list(tree), pos, hist_printer(list(tree), self.leaf_text(ht)), list(pset.arguments)))
+        return got
+
+    def check_old(self):
+        """a callable compiled earlier keeps computing what its tree denoted when it was compiled"""
+        for f, nodes, pos, text, names in self.old[-6:]:
+            for tup in self.tuples[:3]:
+                want = interp(nodes, self.pset.context, dict((i, tup[p]) for i, p in pos.items()), None)
+                try:
+                    v = call(f, self.pset, tup)
+                except Exception as e:  # noqa
+                    v = e
+                if isinstance(v, Exception) or not same_value(v, want):
+                    self.fail("the callable compiled from %s (arguments then %r) returns %r at %r %s; the tree denoted %r" % (
+                        text, names, v, tup, "after %s" % self.trail, want))
+
+    def flush(self, ht):
+        """the model's session for this tree object since its node list last changed (one protocol line)"""
+        if ht.foreign is not None:
+            ht.log, ht.names0 = [], list(self.pset.arguments)
+            return
+        got = self.observe(ht, "c", final=True)
+        ps, toks = self.ps, []
+        for n in ht.tree:
+            if id(n) in self.idpos:
+                toks.append("@%d:%d::t:stale" % (self.idpos[id(n)], ps.tid(n.ret)))
+            else:
+                toks.append(ps.node_tok(n))
+        steps = []
+        for kind, x in ht.log:
+            if kind == "r":
+                steps.append("r~" + (",".join("%s=%s" % (enc(a), enc(b)) for a, b in x) if x else "-"))
+            else:
+                steps.append(kind)
+        if not steps:
+            steps = ["r~-"]
+        obs = [enc(x) for kind, x in ht.log if kind != "r"]
+        vals = ",".join(val_tok(v) for v in got)
+        self.lines.append("C12 hist %s %s %s %s %s %s" % (
+            ps.funs_tok(), ps.vars_tok(), ",".join(enc(a) for a in ht.names0) if ht.names0 else "-", ";".join(steps),
+            ",".join(toks), tuples_tok(self.tuples)))
+        self.expect.append("%s %s %s %s" % (",".join(obs) if obs else "-",
+                                            ",".join(enc(a) for a in pset_args(self.pset)) if self.pset.arguments else "-",
+                                            vals, vals))
+        ht.log, ht.names0 = [], list(self.pset.arguments)
+
+    def rename(self, kind):
+        pset, rng = self.pset, self.rng
+        cur, n = list(pset.arguments), len(pset.arguments)
+        taken = set(cur) | set(pset.context) | set(pset.mapping)
+        fresh = [x for x in FRESH_NAMES if x not in taken and not _keyword.iskeyword(x)]
+        rng.shuffle(fresh)
+        pairs = []
+        if n < 2 and kind in ("swap", "cycle", "freed"):
+            kind = "plain"
+        if n == 0:
+            kind = "noop"
+        if kind == "plain":
+            idx = rng.sample(range(n), rng.randint(1, n))
+            pairs = [(cur[i], fresh[k]) for k, i in enumerate(idx)]
+        elif kind == "swap" or (kind == "cycle" and n < 3):
+            i, j = rng.sample(range(n), 2)
+            pairs = [(cur[i], cur[j]), (cur[j], cur[i])]
+        elif kind == "cycle":
+            a, b, c = rng.sample(range(n), 3)
+            pairs = [(cur[a], cur[b]), (cur[b], cur[c]), (cur[c], cur[a])]
+        elif kind == "freed":
+            i, j = rng.sample(range(n), 2)
+            pairs = [(cur[i], fresh[0]), (cur[j], cur[i])]            # j takes the name i frees in the same call
+        elif kind == "back" and self.last:
+            pairs = [(b, a) for a, b in self.last]
+        elif kind in ("orig", "back"):
+            orig = [t.name for t in pset._argterms]
+            pairs = [(cur[i], orig[i]) for i in range(n) if cur[i] != orig[i]]
+        elif kind == "noop":
+            pairs = [("nosuch", fresh[0])] if rng.random() < 0.5 else []
+        rng.shuffle(pairs)                                            # keywords in any order
+        pset.renameArguments(**dict(pairs))
+        eff = [(a, b) for a, b in pairs if a in cur and a != b]
+        if eff:
+            self.last = eff
+            self.renames += 1
+        return pairs, eff
+
+
+def pset_args(pset):
+    return list(pset.arguments)
+
+
+def hist_adf_case(d):
+    """the same for an ADF individual: one fresh family of sets, one list of trees; compileADF after every step"""
+    rng = random.Random(d["seed"])
+    fam = adf_family(1)
+    psets = [ps.pset for ps in fam]
+    hs = [Hist(ps, rng) for ps in fam]
+    trees = []
+    for ps, g, cap in zip(fam, d["gs"], ADF_HEIGHT_CAP):
+        t = make_tree(ps.pset, g)
+        if t.height > cap:
+            t = make_tree(ps.pset, dict(g, mn=0, mx=1, ops=[]))
+        trees.append(t)
+    if not calls_adf(trees[0]):
+        trees[0] = gp.PrimitiveTree.from_string("add(ADF1(ARG0, 1), ADF2(1, ARG0))", psets[0])
+    tuples = [(v,) for v in [-2, 0, 1, 3] + [rng.randint(-9, 9) for _ in range(2)]]
+    lines, expect, orc, old, done, renames = [], [], [None], [], [], 0
+
+    def direct(ind, level, args):
+        ps = psets[level]
+        ctx = dict(ps.context)
+        for j in range(level + 1, len(psets)):
+            ctx[psets[j].name] = (lambda jj: (lambda *a: direct(ind, jj, a)))(j)
+        return interp(ind[level], ctx, argmap_of(ps, args))
+
+    def fail(msg):
+        if orc[0] is None:
+            orc[0] = msg + "  after " + " ; ".join(done)
+
+    def check(record):
+        for ps, h, t in zip(fam, hs, trees):
+            s, want = str(t), hist_printer(list(t), h.leaf_text(HTree(t, [])))
+            if s != want:
+                fail("str(tree) = %r but the current nodes of the %s tree print %r (arguments %r)" % (s, ps.pset.name, want, ps.pset.arguments))
+        try:
+            f = gp.compileADF(trees, psets)
+            got = [f(*tup) for tup in tuples]
+        except Exception as e:  # noqa
+            fail("compileADF / the compiled program raises %s: %s  [%s]" % (type(e).__name__, e, " | ".join(map(str, trees))))
+            return
+        snap = [list(t) for t in trees]
+        for tup, v in zip(tuples, got):
+            w = direct(snap, 0, tup)
+            if not same_value(v, w):
+                fail("compileADF result %r at %r but evaluating the trees directly gives %r  [%s]" % (v, tup, w, " | ".join(map(str, trees))))
+        old.append((f, snap))
+        if record:
+            parts = ["%s %s %s %s %s" % (enc(ps.pset.name), ps.args_tok(), ps.funs_tok(), ps.vars_tok(), ps.nodes_tok(t))
+                     for ps, t in zip(fam, trees)]
+            lines.append("C12 adf %s %s" % (tuples_tok(tuples), " ".join(parts)))
+            expect.append(",".join(val_tok(v) for v in got))
+
+    for st in d["steps"]:
+        op = st[0]
+        j = st[1] % 3 if len(st) > 1 and isinstance(st[1], int) else 0
+        if op == "adf":
+            done.append("compileADF")
+            check(True)
+        elif op == "str":
+            done.append("str(%s)" % psets[j].name)
+            str(trees[j])
+        elif op == "ren":
+            pairs, eff = hs[j].rename(st[2])
+            renames += 1 if eff else 0
+            done.append("%s.renameArguments(%s)" % (psets[j].name, ", ".join("%s=%r" % p for p in pairs)))
+        elif op == "vary" and len(trees[j]) <= 40:
+            rs = random.getstate()
+            random.seed(st[3])
+            try:
+                if st[2] == "mutn":
+                    gp.mutNodeReplacement(trees[j], psets[j])
+                elif st[2] == "muts":
+                    gp.mutShrink(trees[j])
+                else:
+                    gp.mutUniform(trees[j], expr=lambda pset, type_: gp.genHalfAndHalf(pset, 0, 1, type_), pset=psets[j])
+            finally:
+                random.setstate(rs)
+            if trees[j].height > ADF_HEIGHT_CAP[j] + 1:
+                trees[j] = make_tree(psets[j], dict(d["gs"][j], mn=0, mx=1, ops=[]))      # keep the ints printable
+            done.append("%s on the %s tree" % (st[2], psets[j].name))
+        if d.get("dense", True):
+            check(False)
+        for f, snap in old[-4:]:
+            for tup in tuples[:3]:
+                try:
+                    v = f(*tup)
+                except Exception as e:  # noqa
+                    v = e
+                w = direct(snap, 0, tup)
+                if isinstance(v, Exception) or not same_value(v, w):
+                    fail("a program compiled earlier returns %r at %r, its trees denoted %r" % (v, tup, w))
+    done.append("end")
+    check(True)
+    tag = "hist-adf/%s/%s" % ("dense" if d.get("dense", True) else "sparse", "renamed" if renames else "norename")
+    return Case(d, lines, expect, orc[0], tag=tag, nontrivial=renames > 0)
+
+
+def hist_case(d):
+    rng = random.Random(d["seed"])
+    ps = hist_set(d["ps"])
+    pset = ps.pset
+    H = Hist(ps, rng)
+    H.trail = "creation"
+    trees = [HTree(make_tree(pset, g), pset.arguments) for g in d["gs"]]
+    dense = d.get("dense", True)
+    done = []
+    for k, st in enumerate(d["steps"]):
+        op = st[0]
+        alive = [t for t in trees]
+        i = st[1] % len(alive) if len(st) > 1 and isinstance(st[1], int) and alive else 0
+        H.trail = " ; ".join(done + [":".join(str(x) for x in st)])
+        if op == "str":
+            H.observe(alive[i], "s")
+        elif op == "compile":
+            H.observe(alive[i], "c")
+        elif op == "ren":
+            pairs, eff = H.rename(st[1])
+            done.append("renameArguments(%s)" % ", ".join("%s=%r" % p for p in pairs))
+            H.trail = " ; ".join(done)
+            if eff:
+                # a pickled copy made before this renaming has PRIVATE copies of the argument terminals, which keep the
+                # old text: it is no longer a tree over this set (outside the quantifier) — it leaves the history
+                trees = [t for t in trees if t.foreign is None]
+            for t in trees:
+                if t.foreign is None:
+                    t.log.append(("r", pairs))
+            if not trees:
+                trees = [HTree(make_tree(pset, d["gs"][0]), pset.arguments)]
+        elif op == "rt":
+            ht = alive[i]
+            s = str(ht.tree)
+            try:
+                back = gp.PrimitiveTree.from_string(s, pset)
+            except Exception as e:  # noqa
+                back = None
+                H.fail("from_string(str(t)) raised %s: %s  [t = %s, arguments %r] after %s" % (
+                    type(e).__name__, e, s, pset.arguments, H.trail))
+            H.lines.append("C12 fs %s %s %s %s" % (ps.sub_tok(), ps.mapping_tok(), lit_types(ps), enc(s)))
+            H.expect.append(ps.nodes_tok(back) if back is not None else "none")
+            if back is not None:
+                if str(back) != s:
+                    H.fail("from_string(str(t)) prints %r instead of %r after %s" % (str(back), s, H.trail))
+                elif len(back) != len(ht.tree) or [n.arity for n in back] != [n.arity for n in ht.tree]:
+                    H.fail("from_string(str(t)) has another shape than %s after %s" % (s, H.trail))
+                else:
+                    fa, fb = gp.compile(ht.tree, pset), gp.compile(back, pset)
+                    for tup in H.tuples:
+                        try:
+                            va, vb = call(fa, pset, tup), call(fb, pset, tup)
+                        except Exception as e:  # noqa
+                            H.fail("compiling %s / its re-parsed form raises %s: %s after %s" % (s, type(e).__name__, e, H.trail))
+                            break
+                        if not same_value(va, vb):
+                            H.fail("from_string(str(t)) computes %r instead of %r at %r  [t = %s] after %s" % (vb, va, tup, s, H.trail))
+                            break
+                    if st[2] and ht.foreign is None:
+                        nt = HTree(back, pset.arguments)       # the re-parsed tree lives on as one more object; it is
+                        nt.reparsed = True                     # not varied (from_string types a root constant by its
+                        trees.append(nt)                       # value, which no generator of an untyped set can refill)
+        elif op == "copy":
+            ht = alive[i]
+            if st[2] == "deep":
+                nt = HTree(_copy.deepcopy(ht.tree), ht.names0, ht.foreign)
+                nt.reparsed = getattr(ht, "reparsed", False)
+                nt.log = list(ht.log)                 # same node objects, same history of observations
+            else:
+                c = _pickle.loads(_pickle.dumps(ht.tree, st[3]))
+                onames = dict((t.name, p) for p, t in enumerate(pset._argterms))
+                nt = HTree(c, pset.arguments, dict((id(n), onames[n.name]) for n in c
+                                                   if type(n) is gp.Terminal and n.name in onames))
+            trees.append(nt)
+        elif op == "vary":
+            a = alive[i]
+            b = alive[st[3] % len(alive)]
+            if len(a.tree) <= 60 and len(b.tree) <= 60 and a.foreign is None and b.foreign is None and \
+                    not getattr(a, "reparsed", False) and not getattr(b, "reparsed", False):
+                two = st[2] in ("cx", "cxlb") and b is not a
+                H.flush(a)
+                if two:
+                    H.flush(b)
+                rs = random.getstate()
+                random.seed(st[4])
+                try:
+                    if st[2] == "cx":
+                        if two:
+                            gp.cxOnePoint(a.tree, b.tree)
+                    elif st[2] == "cxlb":
+                        if two:
+                            gp.cxOnePointLeafBiased(a.tree, b.tree, 0.3)
+                    elif st[2] == "mutu":
+                        gp.mutUniform(a.tree, expr=lambda pset, type_: gp.genHalfAndHalf(pset, 0, 2, type_), pset=pset)
+                    elif st[2] == "mutn":
+                        gp.mutNodeReplacement(a.tree, pset)
+                    elif st[2] == "mute":
+                        gp.mutEphemeral(a.tree, "all")
+                    elif st[2] == "muti":
+                        gp.mutInsert(a.tree, pset)
+                    elif st[2] == "muts":
+                        gp.mutShrink(a.tree)
+                finally:
+                    random.setstate(rs)
+        if op != "ren":
+            done.append(":".join(str(x) for x in st[:3]))
+        if dense:
+            for t in trees:
+                H.observe(t, "sc")
+        H.check_old()
+    H.trail = " ; ".join(done + ["end"])
+    for t in trees:
+        H.observe(t, "sc")
+        H.flush(t)
+    H.check_old()
+    tag = "hist/%s/%s/%s" % (d["ps"], "dense" if dense else "sparse", "renamed" if H.renames else "norename")
+    return Case(d, H.lines, H.expect, H.orc if H.orc is not None else H.corr, tag=tag, nontrivial=H.renames > 0)
+
+
+# ----------------------------------------------------------------------------------------------
 # evaluate
 # ----------------------------------------------------------------------------------------------
 
@@ -1066,6 +1500,11 @@ def evaluate(d):
         ps = get_ps(d["ps"])
         tree = make_tree(ps.pset, d["g"])
         return tree_case(d, ps, tree, rng, "tree")
+
+    if k == "hist":
+        return hist_case(d)
+    if k == "hist-adf":
+        return hist_adf_case(d)
 
     if k == "graph":
         # gp.graph(tree) against the model's stack loop (edges in the order they are appended, labels, node count)
@@ -1440,8 +1879,71 @@ def mutate_text(rng, s):
     return "".join(toks)
 
 
+def gen_hist(rng):
+    key = rng.choice(HIST_SETS)
+    gs = []
+    for _ in range(rng.choice([1, 2, 2, 3])):
+        mx = rng.choice([0, 1, 2, 2, 3])
+        gs.append(gen_desc(rng, rng.randint(0, mx), mx, rng.choice(["full", "grow", "half"]), nops=rng.choice([0, 0, 1])))
+    steps = []
+    for _ in range(rng.randint(3, 10)):
+        r = rng.random()
+        i = rng.randrange(8)
+        if r < 0.15:
+            steps.append(["str", i])
+        elif r < 0.3:
+            steps.append(["compile", i])
+        elif r < 0.62:
+            steps.append(["ren", rng.choice(REN_KINDS)])
+        elif r < 0.72:
+            steps.append(["rt", i, rng.random() < 0.5])
+        elif r < 0.82:
+            steps.append(["copy", i] + (["deep"] if rng.random() < 0.5 else ["pickle", rng.choice([0, 2, _pickle.HIGHEST_PROTOCOL])]))
+        else:
+            steps.append(["vary", i, rng.choice(HIST_OPS), rng.randrange(8), rng.randrange(1 << 30)])
+    return {"k": "hist", "ps": key, "gs": gs, "steps": steps, "dense": rng.random() < 0.65, "seed": rng.randrange(1 << 30)}
+
+
+# the shortest histories that carry the clause on their own: observe, rename, observe the SAME object
+HIST_FIXED = [[["str", 0], ["ren", kind], ["compile", 0]] for kind in ("swap", "cycle", "plain", "freed")] + \
+             [[["compile", 0], ["ren", kind], ["str", 0]] for kind in ("swap", "cycle", "plain", "freed")] + \
+             [[["str", 0], ["ren", "swap"], ["ren", "back"], ["compile", 0]],
+              [["compile", 0], ["ren", "plain"], ["ren", "plain"], ["ren", "orig"], ["compile", 0]],
+              [["str", 0], ["copy", 0, "deep"], ["ren", "cycle"], ["compile", 1]],
+              [["str", 0], ["copy", 0, "pickle", 2], ["compile", 1], ["ren", "swap"], ["compile", 0]],
+              [["str", 0], ["ren", "swap"], ["rt", 0, True], ["compile", 1]],
+              [["compile", 0], ["ren", "swap"], ["vary", 0, "mutn", 0, 7], ["ren", "cycle"], ["str", 0]]]
+
+
 def generate(tier, rng, mult):
     thorough = tier == "thorough"
+    # HISTORIES first (they carry the clause "(possibly renamed) arguments" for tree objects that were printed / compiled
+    # before the renaming): the fixed shortest ones on every history set, sparse (only the listed observations), then random
+    for key in HIST_SETS:
+        for steps in HIST_FIXED:
+            for _ in range(4 if thorough else 2):
+                mx = rng.choice([1, 2, 2, 3])
+                yield {"k": "hist", "ps": key, "gs": [gen_desc(rng, rng.randint(1, mx), mx, rng.choice(["full", "grow"]))],
+                       "steps": steps, "dense": False, "seed": rng.randrange(1 << 30)}
+    for _ in range((6000 if thorough else 400) * mult):
+        yield gen_hist(rng)
+    for n in range((2000 if thorough else 150) * mult):
+        gs = [gen_desc(rng, rng.randint(0, 2), 2, rng.choice(["full", "grow", "half"])) for _ in range(3)]
+        if n < 6:
+            steps = [["adf"], ["ren", 1 + n % 2, ["swap", "freed", "plain"][n % 3]], ["adf"]]
+        else:
+            steps = []
+            for _ in range(rng.randint(3, 8)):
+                r = rng.random()
+                if r < 0.25:
+                    steps.append(["adf"])
+                elif r < 0.4:
+                    steps.append(["str", rng.randrange(3)])
+                elif r < 0.8:
+                    steps.append(["ren", rng.randrange(3), rng.choice(REN_KINDS)])
+                else:
+                    steps.append(["vary", rng.randrange(3), rng.choice(["mutn", "muts", "mutu"]), rng.randrange(1 << 30)])
+        yield {"k": "hist-adf", "gs": gs, "steps": steps, "dense": n >= 6 and rng.random() < 0.6, "seed": rng.randrange(1 << 30)}
     # every set x generator x every min <= max in 0..6 (sizes capped inside make_tree)
     for key in PSNAMES:
         for mn in range(0, 7):
@@ -1541,6 +2043,19 @@ def shrink(d):
             e = dict(d)
             e["g"] = h
             yield e
+    if d["k"] in ("hist", "hist-adf"):
+        for i in range(len(d["steps"])):
+            e = dict(d)
+            e["steps"] = d["steps"][:i] + d["steps"][i + 1:]
+            yield e
+        if d.get("dense"):
+            yield dict(d, dense=False)
+        if len(d["gs"]) > 1 and d["k"] == "hist":
+            for i in range(len(d["gs"])):
+                yield dict(d, gs=d["gs"][:i] + d["gs"][i + 1:])
+        for i, g in enumerate(d["gs"]):
+            for h in smaller(g):
+                yield dict(d, gs=d["gs"][:i] + [h] + d["gs"][i + 1:])
     if d["k"] == "twin":
         for h in smaller(d["g"]):
             e = dict(d)
